@@ -134,35 +134,39 @@ Definition open_fragment (c : cfg) (m : mux) (ts : Z) (discont : bool) (now : Z)
 
 Definition neg_max_fraglen : Z := 1000 * 90.
 
+(* closeFragment(false) followed by openFragment(ts, discont), when the caller says so *)
+Definition reopen (c : cfg) (m0 : mux) (s0 : fs) (ts : Z) (doit discont : bool) (now : Z) : mux * list op :=
+  if doit then
+    let '(m1, o1) := close_fragment c m0 s0 false in
+    let '(m2, o2) := open_fragment c m1 ts discont now in
+    (m2, o1 ++ o2)%list
+  else (m0, []).
+
+(* "force fragment split": more than 10 target durations ahead of, or more than 1 s behind, the fragment's first time stamp *)
+Definition force_split (c : cfg) (m : mux) (ts : Z) : bool :=
+  ((m_fragts m <? ts) && (c_ms c * 90 * 10 <? ts - m_fragts m)) || ((ts <? m_fragts m) && (neg_max_fraglen <? m_fragts m - ts)).
+
+(* f.duration = max(f.duration, (ts - fragTs)/90000), f = the ring slot taken BEFORE a forced split *)
+Definition upd_dur (m1 : mux) (fslot : nat) (ts : Z) : mux :=
+  if m_fragts m1 <? ts then
+    let d := f_div (f_of_Z (ts - m_fragts m1)) (f_of_Z 90000) in
+    let f := get_slot m1 fslot in
+    if f_ltb (fi_dur f) d
+    then set_slot m1 fslot (mkfi (fi_id f) d (fi_discont f) (fi_named f) (fi_now f))
+    else m1
+  else m1.
+
 (* updateFragment *)
 Definition update_fragment (c : cfg) (m : mux) (s : fs) (ts : Z) (boundary : bool) (now : Z) : mux * list op :=
-  let go_open (m0 : mux) (s0 : fs) (pre : list op) (discont : bool) :=
-    if boundary then
-      let '(m1, o1) := close_fragment c m0 s0 false in
-      let '(m2, o2) := open_fragment c m1 ts discont now in
-      (m2, pre ++ o1 ++ o2)%list
-    else (m0, pre) in
   if m_opened m then
     let fslot := slot c m (m_nfrags m) in               (* f := m.getCurrFrag(), a pointer into the ring *)
-    let maxfraglen := c_ms c * 90 * 10 in
-    let '(m1, o1) :=
-      if ((m_fragts m <? ts) && (maxfraglen <? ts - m_fragts m)) || ((ts <? m_fragts m) && (neg_max_fraglen <? m_fragts m - ts))
-      then
-        let '(ma, oa) := close_fragment c m s false in
-        let '(mb, ob) := open_fragment c ma ts true now in
-        (mb, oa ++ ob)%list
-      else (m, []) in
-    let m2 :=
-      if m_fragts m1 <? ts then
-        let d := f_div (f_of_Z (ts - m_fragts m1)) (f_of_Z 90000) in
-        let f := get_slot m1 fslot in
-        if f_ltb (fi_dur f) d
-        then set_slot m1 fslot (mkfi (fi_id f) d (fi_discont f) (fi_named f) (fi_now f))
-        else m1
-      else m1 in
+    let '(m1, o1) := if force_split c m ts then reopen c m s ts true true now else (m, []) in
+    let m2 := upd_dur m1 fslot ts in
     if f_ltb (fi_dur (get_slot m2 fslot)) (frag_target c) then (m2, o1)
-    else go_open m2 (apply_all s o1) o1 false
-  else go_open m s [] true.
+    else
+      let '(m3, o3) := reopen c m2 (apply_all s o1) ts boundary false now in
+      (m3, o1 ++ o3)%list
+  else reopen c m s ts boundary true now.
 
 Inductive event :=
 | EvNew                                            (* Group.startHlsIfNeeded: NewMuxer + Start *)
